@@ -558,7 +558,7 @@ def absorb(prog: Program, res: Result) -> None:
 def check(prog: Program, res: Result, tier: str) -> None:
     res.explanation = __doc__.split("\n\n", 1)[1]
     res.assumptions = ["breakpt + 1 is the number of negatively correlated modes (index + 1)", "np.floor / int keep integer values integer"]
-    res.floors = {"PARITY": 3, "PS-k": 8, "EO-3": 4, "ABSORB": 3, "SCALE": 12}
+    res.floors = {"PARITY": 3, "PS-k": 8, "EO-3": 4, "ABSORB": 3, "SCALE": 20}
     parity(prog, res)
     ps_k(prog, res)
     eo3(prog, res)
@@ -632,6 +632,16 @@ def scale(prog: Program, res: Result) -> None:
                     if s2.unmodelled:
                         und = s2.unmodelled
                         break
+                    ztau = getattr(s2, "zero_tau", ())
+                    if ztau:
+                        # a column of norm zero: the component is zero whatever the scales; what is promised is the normal form -
+                        # the weight is multiplied by the norm, i.e. becomes zero (unless the weights were absorbed and reset to one)
+                        wz = sp.simplify(s2.w.subs({t_: 0 for t_ in ztau}))
+                        absorbed_z = any(d.startswith(("weight_factor == 'all'", "weight_factor is not None")) for d in s2.decisions) or list_result
+                        if not absorbed_z and wz != 0:
+                            problems.append(f"a column of norm zero leaves the weight at {wz} instead of 0 (the weight is the product of the column norms; "
+                                            "CP-APR reads the model's total mass from it)")
+                        continue
                     total = s2.f_all ** KS.N_ * s2.extra if list_result else s2.total()
                     eq, wit = KS.same(total, target)
                     if eq is False:
